@@ -1143,3 +1143,20 @@ Example flat_names_distinct_witness :
   var_map_u (fun x => x) (G [] [s "x"] [(s "a__b", 1)] [G (s "a") [] [(s "b", 1)] []]) =
     [(s "/a__b", s "a__b"); (s "/a/b", s "a__b_1")].
 Proof. vm_compute. reflexivity. Qed.
+
+(* ------------------------------------------------------------------ packaged statements for Props.v *)
+Lemma lateral_fuel_and_complete : forall root p g sd ref,
+  find_group root p = Some g ->
+  (forall extra, bfs (height root + extra) sd ref (next_level [(p, g)]) =
+                 bfs (height root) sd ref (next_level [(p, g)])) /\
+  (bfs (height root) sd ref (next_level [(p, g)]) = None ->
+   forall comps g', comps <> [] -> find_group g comps = Some g' -> has_elt sd g' ref = false).
+Proof.
+  intros root p g sd ref F. split.
+  - intros extra. exact (lateral_fuel root p g sd ref extra F).
+  - exact (lateral_complete root p g sd ref F).
+Qed.
+
+Lemma digest_hypotheses_satisfiable :
+  (forall a b, enc a = enc b -> a = b) /\ (forall a, good (enc a)).
+Proof. split; [exact enc_inj|exact enc_good]. Qed.
